@@ -1071,3 +1071,170 @@ Section ExecClean.
       + apply A; auto. apply X1. congruence.
   Qed.
 End ExecClean.
+
+(* ghost change counters: number of updates of a parameter / number of re-wirings of a struct node *)
+Definition ctr (st : store) (m : id) : nat :=
+  match nth_error st m with
+  | Some (Param _ _ sets) => sets
+  | Some (Struct sn) => sn_edits sn
+  | None => 0
+  end.
+Definition target (o : op) : id :=
+  match o with SetParam n _ | Connect n _ _ | Disconnect n _ | Read n => n end.
+Definition is_read (o : op) : bool := match o with Read _ => true | _ => false end.
+
+Lemma store_le_ctr st st' m : store_le st st' -> ctr st' m = ctr st m.
+Proof.
+  intros [L H]. unfold ctr. destruct (nth_error st m) as [x|] eqn:Ex.
+  - destruct (H _ _ Ex) as (y & -> & Le). destruct x, y; simpl in Le; try tauto; try congruence.
+  - apply nth_error_None in Ex. rewrite <- L in Ex. apply nth_error_None in Ex. rewrite Ex. auto.
+Qed.
+
+(* an edit replaces exactly the record of its target, and bumps its counter *)
+Lemma step_store_edit po st o st' r : is_read o = false -> step_store po st o = Some (st', r) ->
+  exists y, st' = set_nth (target o) y st /\ target o < length st /\
+            ctr st' (target o) = S (ctr st (target o)) /\ execs_of st' (target o) = execs_of st (target o).
+Proof.
+  intros Hr H. destruct o as [n v | n input src | n input | n]; try discriminate; cbn [step_store] in H; simpl.
+  - destruct (nth_error st n) as [[ver w sets|]|] eqn:En; try discriminate. injection H as <- <-.
+    assert (n < length st) by (eapply nth_error_some_lt; eauto).
+    eexists; split; [reflexivity|]. split; auto.
+    unfold ctr, execs_of. rewrite nth_error_set_nth_eq, En; auto.
+  - destruct (src <? length st); [|discriminate]. inv_bind H.
+    destruct (acyclic_b (graph_of a)); [|discriminate]. injection H as <- <-.
+    destruct (rewire_inv _ _ _ _ _ E) as (sn & ps & En & Hps & ->).
+    assert (n < length st) by (eapply nth_error_some_lt; eauto).
+    eexists; split; [reflexivity|]. split; auto.
+    unfold ctr, execs_of. rewrite nth_error_set_nth_eq, En; auto.
+  - inv_bind H. injection H as <- <-.
+    destruct (rewire_inv _ _ _ _ _ E) as (sn & ps & En & Hps & ->).
+    assert (n < length st) by (eapply nth_error_some_lt; eauto).
+    eexists; split; [reflexivity|]. split; auto.
+    unfold ctr, execs_of. rewrite nth_error_set_nth_eq, En; auto.
+Qed.
+
+Lemma step_store_read po st n st' r : step_store po st (Read n) = Some (st', r) ->
+  exists v, value po (fuel_of st) st n = Some (st', v).
+Proof.
+  cbn [step_store]. intros H. inv_bind H. destruct a as [st1 v]. injection H as <- <-. eauto.
+Qed.
+
+Lemma step_store_ctr po st o st' r : step_store po st o = Some (st', r) ->
+  forall m, ctr st m <= ctr st' m /\ (ctr st' m = ctr st m -> is_read o = false -> nth_error st' m = nth_error st m)
+            /\ (is_read o = true \/ target o <> m -> ctr st' m = ctr st m).
+Proof.
+  intros H m. destruct (is_read o) eqn:Er.
+  - destruct o; try discriminate. destruct (step_store_read _ _ _ _ _ H) as [v Hv].
+    rewrite (store_le_ctr _ _ m (value_le _ _ _ _ _ _ Hv)). repeat split; auto; discriminate.
+  - destruct (step_store_edit _ _ _ _ _ Er H) as (y & -> & Hlt & Hc & _).
+    destruct (Nat.eq_dec (target o) m) as [<- | Hne].
+    + rewrite Hc. repeat split; try lia; try (intros [|]; [discriminate|tauto]).
+    + unfold ctr. rewrite nth_error_set_nth_neq; auto.
+Qed.
+
+Lemma step_idle po st o st' r n : perm_ok po -> clean po st n -> step_store po st o = Some (st', r) ->
+  (forall m, reach (graph_of st) n m -> ctr st' m = ctr st m) ->
+  forall m, reach (graph_of st) n m -> nth_error st' m = nth_error st m.
+Proof.
+  intros PO [f Hf] H Hc m Hm. destruct (is_read o) eqn:Er.
+  - destruct o; try discriminate. destruct (step_store_read _ _ _ _ _ H) as [v Hv].
+    apply (value_keeps po PO _ _ _ _ _ Hv). eapply clean_cone; eauto.
+  - destruct (step_store_ctr _ _ _ _ _ H m) as (_ & Hn & _). apply Hn; auto.
+Qed.
+
+Definition const_oracle (po : order) : oracle := fun _ => po.
+
+Lemma step_inv orc s o s' res : step orc s o = Some (s', res) ->
+  step_store (orc (clock s)) (nodes s) o = Some (nodes s', res).
+Proof.
+  unfold step. intros H. apply bind_some in H as [[st' r] [E1 E2]]. injection E2 as <- <-. exact E1.
+Qed.
+
+Lemma run_ctr_mono orc : forall h s s1, run orc s h = Some s1 -> forall m, ctr (nodes s) m <= ctr (nodes s1) m.
+Proof.
+  induction h as [|o r IH]; simpl; intros s s1 H m.
+  - injection H as <-. auto.
+  - inv_bind H. destruct a as [s' res]. apply step_inv in E.
+    destruct (step_store_ctr _ _ _ _ _ E m) as (L & _). specialize (IH _ _ H m). lia.
+Qed.
+
+Lemma run_ctr_untargeted orc m : forall h s s1, run orc s h = Some s1 ->
+  Forall (fun o => is_read o = true \/ target o <> m) h -> ctr (nodes s1) m = ctr (nodes s) m.
+Proof.
+  induction h as [|o r IH]; simpl; intros s s1 H F.
+  - injection H as <-. auto.
+  - inversion F; subst. inv_bind H. destruct a as [s' res]. apply step_inv in E.
+    destruct (step_store_ctr _ _ _ _ _ E m) as (_ & _ & U). rewrite (IH _ _ H H3). auto.
+Qed.
+
+(* while nothing in the cone of a clean node is touched, the node stays clean and does not execute *)
+Lemma idle_run po : perm_ok po -> forall h s s1 n,
+  run (const_oracle po) s h = Some s1 -> clean po (nodes s) n ->
+  (forall m, reach (graph_of (nodes s)) n m -> ctr (nodes s1) m = ctr (nodes s) m) ->
+  execs_of (nodes s1) n = execs_of (nodes s) n /\ clean po (nodes s1) n.
+Proof.
+  intros PO. induction h as [|o r IH]; simpl; intros s s1 n H C U.
+  - injection H as <-. auto.
+  - inv_bind H. destruct a as [s' res]. pose proof (step_inv _ _ _ _ _ E) as E'.
+    unfold const_oracle in E'.
+    assert (U' : forall m, reach (graph_of (nodes s)) n m -> ctr (nodes s') m = ctr (nodes s) m).
+    { intros m Hm. destruct (step_store_ctr _ _ _ _ _ E' m) as (L & _).
+      pose proof (run_ctr_mono _ _ _ _ H m). specialize (U m Hm). lia. }
+    pose proof (step_idle po _ _ _ _ n PO C E' U') as N.
+    assert (C' : clean po (nodes s') n).
+    { destruct C as [f Hf]. exists f. eapply agree_on_cone; eauto. }
+    assert (Rg : forall m, reach (graph_of (nodes s')) n m -> reach (graph_of (nodes s)) n m).
+    { apply reach_agree. intros k Hk. rewrite !graph_nth, (N k Hk). auto. }
+    destruct (IH _ _ n H C') as [X1 C1].
+    { intros m Hm. rewrite (U m (Rg m Hm)), (U' m (Rg m Hm)). auto. }
+    split; auto. rewrite X1. apply execs_of_nth. apply N. constructor.
+Qed.
+
+(* C11, second sentence (stable order), contrapositive form with the ghost counters:
+   after an execution of n, n does not execute again as long as no parameter in its cone is set and
+   no node of its cone (itself included) is re-wired *)
+Theorem no_exec_while_cone_untouched po ds h1 s0 o s0' res h2 s1 n :
+  stable po ->
+  run (const_oracle po) (init ds) h1 = Some s0 ->
+  step (const_oracle po) s0 o = Some (s0', res) ->
+  execs_of (nodes s0') n <> execs_of (nodes s0) n ->            (* n executed in this step *)
+  run (const_oracle po) s0' h2 = Some s1 ->
+  (forall m, reach (graph_of (nodes s0')) n m -> ctr (nodes s1) m = ctr (nodes s0') m) ->
+  execs_of (nodes s1) n = execs_of (nodes s0') n /\ clean po (nodes s1) n.
+Proof.
+  intros ST R0 Hs Hx R1 U.
+  assert (PO : oracle_ok (const_oracle po)) by (intros c; apply ST).
+  destruct (run_WF _ PO _ _ _ (init_WF ds) R0) as [I [rk Rk]].
+  apply step_inv in Hs. unfold const_oracle in Hs.
+  assert (C : clean po (nodes s0') n).
+  { destruct (is_read o) eqn:Er.
+    - destruct o; try discriminate. destruct (step_store_read _ _ _ _ _ Hs) as [v Hv].
+      destruct (value_exec_clean po ST rk _ _ _ _ _ (conj I Rk) Hv) as [_ X]. apply X; auto.
+    - exfalso. apply Hx. destruct (step_store_edit _ _ _ _ _ Er Hs) as (y & E & Hlt & _ & Ex).
+      destruct (Nat.eq_dec (target o) n) as [<- | Hne]; auto.
+      apply execs_of_nth. rewrite E. apply nth_error_set_nth_neq; auto. }
+  eapply idle_run; eauto. apply ST.
+Qed.
+
+(* the same without ghost counters: no operation of h2 sets a parameter of the cone or re-wires a node of it *)
+Definition touches (g : graph) (n : id) (o : op) : Prop :=
+  match o with Read _ => False | _ => reach g n (target o) end.
+
+Theorem exec_only_if_cone_touched po ds h1 s0 o s0' res h2 s1 n :
+  stable po ->
+  run (const_oracle po) (init ds) h1 = Some s0 ->
+  step (const_oracle po) s0 o = Some (s0', res) ->
+  execs_of (nodes s0') n <> execs_of (nodes s0) n ->
+  run (const_oracle po) s0' h2 = Some s1 ->
+  Forall (fun o => ~ touches (graph_of (nodes s0')) n o) h2 ->
+  execs_of (nodes s1) n = execs_of (nodes s0') n.
+Proof.
+  intros ST R0 Hs Hx R1 F.
+  eapply (no_exec_while_cone_untouched po ds h1 s0 o s0' res h2 s1 n); eauto.
+  intros m Hm. eapply run_ctr_untargeted; eauto.
+  eapply Forall_impl; [|exact F]. intros o' Ho'. destruct (is_read o') eqn:Er; auto.
+  right. intros <-. apply Ho'. destruct o'; simpl in *; auto. discriminate.
+Qed.
+
+Lemma sorted_order_stable : stable sorted_order.
+Proof. split; [intros ph n l; apply sort_deps_perm | reflexivity]. Qed.
